@@ -125,6 +125,8 @@ func runC03(r *vhlib.Run) {
 	rng := r.Rng
 	// handleDegenerateCodes / ReadPrefixCodes dispatch against their model (Bzip2/Degenerate.v)
 	runWBZDEGEN(r)
+	// bzip2.Reader itself against its implementation-level model, per Read call (Bzip2/Impl.v)
+	wbzimpl(r)
 	n := 220
 	if !r.Quick() {
 		n = 6000
